@@ -291,6 +291,11 @@ var funcs = []fn{
 	{"socks5", "", "LengthOfAddrFromConnAddr", "LengthOfAddrFromConnAddr"},
 	{"zerocopy", "", "UDPRelayHeadroom", "UDPRelayHeadroom"},
 	{"zerocopy", "", "MaxPacketSizeForAddr", "MaxPacketSizeForAddr"},
+	{"direct", "*Socks5UDPClient", "NewSession", "Socks5UDPClientNewSession"},
+	{"direct", "*Socks5UDPClient", "newSession", "Socks5UDPClientNewSessionInner"},
+	{"direct", "*Socks5AuthUDPClient", "NewSession", "Socks5AuthUDPClientNewSession"},
+	{"direct", "*ShadowsocksNoneUDPClient", "NewSession", "NoneUDPClientNewSession"},
+	{"ss2022", "*UDPClient", "NewSession", "SS2022UDPClientNewSession"},
 	{"dns", "*resultBuilder", "parseMsg", "dnsParseMsg"},
 	{"dns", "*Resolver", "doTCP", "dnsDoTCP"},
 	{"dns", "*Resolver", "sendQueries", "dnsSendQueries"},
@@ -312,7 +317,7 @@ var funcs = []fn{
 }
 
 // methods that panic by contract on some receiver/argument values
-var panickyMethods = map[string]bool{"IP": true, "Domain": true, "IPPort": true, "Contains": true, "IsSet": true, "Host": true,
+var panickyMethods = map[string]bool{"IsUnspecified": false, "IP": true, "Domain": true, "IPPort": true, "Contains": true, "IsSet": true, "Host": true,
 	"ResolveIP": true, "ResolveIPPort": true, "MustAdd": true}
 
 func mentionsLenCap(p *lpkg, e ast.Expr) bool {
@@ -597,6 +602,23 @@ func main() {
 			}
 			l.BoolDef(m.lean, g, "ss2022."+m.recv+".PackInPlace: every mrand.IntN(x) is under a condition with the conjunct `x > 0`")
 		}
+		// conn.Addr accessors that panic on the wrong address kind (IP / IPPort / Domain): every call site in the packages that
+		// handle wire-derived addresses, with the IsIP()/IsDomain() guard that dominates it; the sites without a sufficient
+		// guard must be exactly the audited list in Props (a new unguarded call re-opens the obligation).
+		{
+			var all, unguarded []string
+			for _, dir := range []string{"direct", "socks5", "service", "router", "dns", "netio", "probe", "ss2022", "ssnone", "httpproxy", "clientgroups"} {
+				p, err := ld.Load(dir)
+				if err != nil {
+					return err
+				}
+				a, u := accessorSites(p)
+				all = append(all, a...)
+				unguarded = append(unguarded, u...)
+			}
+			l.Raw(fmt.Sprintf("/-- every call of conn.Addr.IP/IPPort/Domain (contract: panic on the wrong kind) with its dominating guard -/\ndef accessorSites : List String := %s\n", gen.LeanStrList(all)))
+			l.Raw(fmt.Sprintf("/-- the call sites whose guard does not by itself establish the accessor's precondition -/\ndef unguardedAccessorSites : List String := %s\n", gen.LeanStrList(unguarded)))
+		}
 		// F4: does the service refuse `direct` + tunnelUDPTargetOnly + non-IP tunnelRemoteAddress at load?
 		sv, err := ld.Load("service")
 		if err != nil {
@@ -718,6 +740,181 @@ func intNGuarded(p *lpkg, fd *ast.FuncDecl) (bool, error) {
 		return false, fmt.Errorf("%s: no IntN call found (the model of the padding draw no longer mirrors the code)", fd.Name.Name)
 	}
 	return guarded == calls, nil
+}
+
+// accessorSites lists the calls `x.IP()`, `x.IPPort()`, `x.Domain()` on a conn.Addr in package p.
+// guard = "IsIP" (call is in the then-branch of a condition with conjunct x.IsIP(), or after `if !x.IsIP() {…return}`),
+// "notIsIP" (else-branch of x.IsIP(), then-branch of !x.IsIP(), or after `if x.IsIP() {…return}`), "IsDomain", or "none".
+// IP/IPPort need IsIP; Domain needs IsDomain or notIsIP (wire-derived addresses are never the zero value).
+func accessorSites(p *lpkg) (all, unguarded []string) {
+	isAddr := func(e ast.Expr) bool {
+		tv, ok := p.Info.Types[e]
+		if !ok || tv.Type == nil {
+			return true
+		}
+		t := tv.Type.String()
+		return strings.HasSuffix(t, "/conn.Addr") || t == "invalid type"
+	}
+	var conjuncts func(e ast.Expr) []ast.Expr
+	conjuncts = func(e ast.Expr) []ast.Expr {
+		if pe, ok := e.(*ast.ParenExpr); ok {
+			return conjuncts(pe.X)
+		}
+		if b, ok := e.(*ast.BinaryExpr); ok && b.Op == token.LAND {
+			return append(conjuncts(b.X), conjuncts(b.Y)...)
+		}
+		return []ast.Expr{e}
+	}
+	// facts established about receiver text: "IsIP", "notIsIP", "IsDomain"
+	factsOf := func(cond ast.Expr, positive bool) map[string]string {
+		m := map[string]string{}
+		cs := []ast.Expr{cond}
+		if positive {
+			cs = conjuncts(cond)
+		}
+		for _, c := range cs {
+			neg := !positive
+			if u, ok := c.(*ast.UnaryExpr); ok && u.Op == token.NOT {
+				c, neg = u.X, !neg
+			}
+			call, ok := c.(*ast.CallExpr)
+			if !ok {
+				continue
+			}
+			se, ok := call.Fun.(*ast.SelectorExpr)
+			if !ok {
+				continue
+			}
+			recv := p.Src(se.X)
+			switch {
+			case se.Sel.Name == "IsIP" && !neg:
+				m[recv] = "IsIP"
+			case se.Sel.Name == "IsIP" && neg:
+				m[recv] = "notIsIP"
+			case se.Sel.Name == "IsDomain" && !neg:
+				m[recv] = "IsDomain"
+			}
+		}
+		return m
+	}
+	merge := func(a, b map[string]string) map[string]string {
+		m := map[string]string{}
+		for k, v := range a {
+			m[k] = v
+		}
+		for k, v := range b {
+			m[k] = v
+		}
+		return m
+	}
+	var fname string
+	var walkStmts func(list []ast.Stmt, facts map[string]string)
+	var walk func(n ast.Node, facts map[string]string)
+	record := func(n ast.Node, facts map[string]string) {
+		ast.Inspect(n, func(m ast.Node) bool {
+			switch m.(type) {
+			case *ast.BlockStmt, *ast.IfStmt, *ast.FuncLit:
+				if m != n {
+					walk(m, facts)
+					return false
+				}
+			}
+			call, ok := m.(*ast.CallExpr)
+			if !ok || len(call.Args) != 0 {
+				return true
+			}
+			se, ok := call.Fun.(*ast.SelectorExpr)
+			if !ok || (se.Sel.Name != "IP" && se.Sel.Name != "IPPort" && se.Sel.Name != "Domain") || !isAddr(se.X) {
+				return true
+			}
+			recv := p.Src(se.X)
+			g := facts[recv]
+			if g == "" {
+				g = "none"
+			}
+			entry := fmt.Sprintf("%s.%s: %s.%s() guard=%s", p.Dir, fname, recv, se.Sel.Name, g)
+			all = append(all, entry)
+			okGuard := (se.Sel.Name == "Domain" && (g == "IsDomain" || g == "notIsIP")) || (se.Sel.Name != "Domain" && g == "IsIP")
+			if !okGuard {
+				unguarded = append(unguarded, entry)
+			}
+			return true
+		})
+	}
+	walk = func(n ast.Node, facts map[string]string) {
+		switch x := n.(type) {
+		case nil:
+		case *ast.BlockStmt:
+			walkStmts(x.List, facts)
+		case *ast.IfStmt:
+			if x.Init != nil {
+				record(x.Init, facts)
+			}
+			// Go evaluates the condition left to right: later conjuncts see the earlier ones
+			record(x.Cond, merge(facts, factsOf(x.Cond, true)))
+			walk(x.Body, merge(facts, factsOf(x.Cond, true)))
+			if x.Else != nil {
+				walk(x.Else, merge(facts, factsOf(x.Cond, false)))
+			}
+		case *ast.FuncLit:
+			walk(x.Body, facts)
+		default:
+			record(n, facts)
+		}
+	}
+	walkStmts = func(list []ast.Stmt, facts map[string]string) {
+		for _, st := range list {
+			switch x := st.(type) {
+			case *ast.BlockStmt, *ast.IfStmt:
+				walk(x, facts)
+			case *ast.SwitchStmt, *ast.TypeSwitchStmt, *ast.SelectStmt, *ast.ForStmt, *ast.RangeStmt, *ast.CaseClause, *ast.CommClause:
+				// descend generically: blocks inside are walked with the current facts
+				ast.Inspect(x, func(m ast.Node) bool {
+					if m == ast.Node(x) {
+						return true
+					}
+					switch b := m.(type) {
+					case *ast.BlockStmt:
+						walk(b, facts)
+						return false
+					case *ast.CaseClause:
+						for _, e := range b.List {
+							record(e, facts)
+						}
+						walkStmts(b.Body, facts)
+						return false
+					case *ast.CommClause:
+						walkStmts(b.Body, facts)
+						return false
+					case ast.Expr:
+						record(b, facts)
+						return false
+					}
+					return true
+				})
+			default:
+				record(st, facts)
+			}
+			// early return: `if cond { … return }` establishes the negation for the rest of the block
+			if is, ok := st.(*ast.IfStmt); ok && is.Else == nil && endsInReturn(is.Body) {
+				facts = merge(facts, factsOf(is.Cond, false))
+			}
+		}
+	}
+	for _, f := range p.Files {
+		for _, d := range f.Decls {
+			fd, ok := d.(*ast.FuncDecl)
+			if !ok || fd.Body == nil {
+				continue
+			}
+			fname = fd.Name.Name
+			if fd.Recv != nil && len(fd.Recv.List) == 1 {
+				fname = "(" + p.Src(fd.Recv.List[0].Type) + ")." + fname
+			}
+			walk(fd.Body, map[string]string{})
+		}
+	}
+	return
 }
 
 func recvDot(r string) string {
